@@ -239,10 +239,22 @@ def build_fit(h, w, u, d, m_real, e, sky, mode, junk, inversion):
     return aa.m.MockFitImaging(dataset=ds, use_mask_in_fit=use, model_data=model, inversion=inversion, dataset_model=dm)
 
 
-def read_fit(fit):
+# read orders: the definitions do not depend on which quantity a caller looks at first, nor on how often
+ORDERS = {
+    "canonical": READ_ORDER,
+    "maps-first": ("signal_to_noise_map", "residual_flux_fraction_map", "normalized_residual_map", "chi_squared_map", "residual_map",
+                   "figure_of_merit", "log_evidence", "log_likelihood_with_regularization", "log_likelihood", "noise_normalization",
+                   "reduced_chi_squared", "chi_squared"),
+    "reversed": tuple(reversed(READ_ORDER)),
+    "twice": ("signal_to_noise_map", "figure_of_merit") + READ_ORDER,  # then everything once more (see records_for)
+}
+ORDER_NAMES = ("canonical", "maps-first", "reversed", "twice")
+
+
+def read_fit(fit, order="canonical"):
     raw = {}
     with np.errstate(all="ignore"):
-        for nm in READ_ORDER:
+        for nm in ORDERS[order]:
             v = getattr(fit, nm)
             if nm in MAPS:
                 v = np.array(v.array if hasattr(v, "array") else v, dtype=float).ravel()
@@ -398,17 +410,36 @@ def records_for(src):
     else:
         m_real = np.asarray(src["m"], dtype=float)
     recs, refs = [], {}
-    for mode, junk in src["modes"]:
-        rec = {"p": "C08", "api": "fit", "h": h, "w": w, "u": list(u), "mode": mode, "junk": int(junk), "mk": mk, "d": list(d), "e": list(e),
-               "sky": int(sky), "hasinv": inversion is not None, "raised": "", "same": True}
-        if mk == "int":
-            rec["m"] = [int(x) for x in src["m"]]
+    # every (mode, junk) evaluation gets a read order; "twice" reads everything a second time (the record carries the LAST
+    # read, `stable` says the reads agree bit for bit) and is followed by a second fit built on the SAME dataset object
+    evals = []
+    for j, (mode, junk) in enumerate(src["modes"]):
+        order = ORDER_NAMES[(src.get("sid", 0) + j) % len(ORDER_NAMES)]
         try:
             fit = build_fit(h, w, u, d, m_real, e, sky, mode, junk, inversion)
-            raw = read_fit(fit)
+            raw = read_fit(fit, order)
+            stable = True
+            if order == "twice":
+                raw2 = read_fit(fit, "canonical")
+                stable = same_as(raw2, raw, None)
+                raw = raw2
             if inversion is not None and invrec is None:
                 invrec = read_inversion(inversion, objs_abs, lat, sc, sx, ss)
+            evals.append((mode, junk, order, 1, raw, stable, None))
+            if order == "twice":
+                import autoarray as aa
+
+                fit_b = aa.m.MockFitImaging(dataset=fit.dataset, use_mask_in_fit=fit.use_mask_in_fit, model_data=fit.model_data,
+                                            inversion=inversion, dataset_model=fit.dataset_model)
+                evals.append((mode, junk, "canonical", 2, read_fit(fit_b, "canonical"), True, None))
         except Exception as ex:  # the property gives no licence to raise on a valid dataset
+            evals.append((mode, junk, order, 1, None, True, ex))
+    for mode, junk, order, nth, raw, stable, ex in evals:
+        rec = {"p": "C08", "api": "fit", "h": h, "w": w, "u": list(u), "mode": mode, "junk": int(junk), "mk": mk, "d": list(d), "e": list(e),
+               "sky": int(sky), "hasinv": inversion is not None, "raised": "", "same": True, "order": order, "nth": nth, "stable": bool(stable)}
+        if mk == "int":
+            rec["m"] = [int(x) for x in src["m"]]
+        if ex is not None:
             rec["raised"] = type(ex).__name__ + ": " + str(ex)[:120]
             if inversion is not None:
                 rec["inv"] = {"objs": objs_abs}
@@ -418,7 +449,7 @@ def records_for(src):
             continue
         sel = u if mode == "native" else None
         if junk == 0:
-            refs[mode] = raw
+            refs.setdefault(mode, raw)
         elif mode in refs:
             rec["same"] = bool(same_as(raw, refs[mode], sel))
         if mk == "int":
@@ -426,7 +457,7 @@ def records_for(src):
             rec["nres2"] = ai(raw["normalized_residual_map"], 2)
             rec["chi2map4"] = ai(raw["chi_squared_map"], 4)
             rec["sn2"] = ai(raw["signal_to_noise_map"], 2)
-            rff = {k: rec[k] for k in ("p", "h", "w", "u", "mode", "junk", "mk", "d", "e", "sky", "m", "raised")}
+            rff = {k: rec[k] for k in ("p", "h", "w", "u", "mode", "junk", "mk", "d", "e", "sky", "m", "raised", "order", "nth")}
             rff.update({"api": "rff", "hasinv": False, "rff": ai(raw["residual_flux_fraction_map"], RFF_DEN, tol=1e-6)})
             c4 = ai([raw["chi_squared"]], 4)[0] if raw["chi_squared"] is not None else OFF
             rec["chi2q"] = c4
@@ -580,7 +611,7 @@ def generic_inversion_source(rng, k):
 # validation
 # ------------------------------------------------------------------------------------------------------------
 def _describe(rec):
-    s = f"{'residual_flux_fraction_map of ' if rec['api'] == 'rff' else ''}fit[{rec['mode']}, junk={rec['junk']}, model={rec['mk']}] on {rec['h']}x{rec['w']} u={rec['u']} d={rec['d']} e={rec['e']} sky={rec['sky']}"
+    s = f"{'residual_flux_fraction_map of ' if rec['api'] == 'rff' else ''}fit[{rec['mode']}, junk={rec['junk']}, model={rec['mk']}, read order={rec.get('order')}, fit #{rec.get('nth')} on its dataset] on {rec['h']}x{rec['w']} u={rec['u']} d={rec['d']} e={rec['e']} sky={rec['sky']}"
     if rec.get("mk") == "int":
         s += f" m={rec.get('m')}"
     if rec["hasinv"]:
@@ -712,7 +743,7 @@ def replay(ctx, rp):
     src["modes"] = [tuple(x) for x in src["modes"]]
     recs = records_for(src)
     want = rp.get("record", {})
-    keep = [r for r in recs if (r["api"], r["mode"], r["junk"]) == (want.get("api"), want.get("mode"), want.get("junk"))] or recs
+    keep = [r for r in recs if (r["api"], r["mode"], r["junk"], r.get("nth")) == (want.get("api"), want.get("mode"), want.get("junk"), want.get("nth"))] or recs
     rej = validate(ctx, keep, "C08-replay")
     print("replayed", len(keep), "records; rejected:", [(r["sig"], r["clauses"]) for r in rej])
     return ctx.finish()
